@@ -586,11 +586,13 @@ func substitutionsIn(fn *ssa.Function, out map[int64]int64) {
 	})
 }
 
-func c08Base85(w *World, r *Report) {
+func c08Base85(w *World, r *Report) { ruleBase85Substitution(w, r, "R08.4") }
+
+func ruleBase85Substitution(w *World, r *Report, rule string) {
 	n := w.Named("internal/util/enc", "Base85Encoder")
 	key := "codec:util/enc.Base85Encoder|substitution"
 	if n == nil {
-		r.Undecided("R08.4", key, "-", "anchor unresolved")
+		r.Undecided(rule, key, "-", "anchor unresolved")
 		return
 	}
 	enc := substitutions(w, w.SSAFunc(methodOf(n, "Encode")))
@@ -631,7 +633,7 @@ func c08Base85(w *World, r *Report) {
 		problems = append(problems, "no substitution found in Encode")
 	}
 	sort.Strings(problems)
-	r.Check(len(problems) == 0, "R08.4", key, w.Pos(n.Obj().Pos()), fmt.Sprintf("%d substitutions, all forbidden ascii85 bytes covered, targets outside ascii85's alphabet, inverted by Decode", len(enc)), strings.Join(problems, "; "), "encode_map", fmt.Sprint(enc), "decode_map", fmt.Sprint(dec))
+	r.Check(len(problems) == 0, rule, key, w.Pos(n.Obj().Pos()), fmt.Sprintf("%d substitutions, all forbidden ascii85 bytes covered, targets outside ascii85's alphabet, inverted by Decode", len(enc)), strings.Join(problems, "; "), "encode_map", fmt.Sprint(enc), "decode_map", fmt.Sprint(dec))
 }
 
 // c08WrittenLen: the count returned by ascii85.Encode / ascii85.Decode must
